@@ -22,6 +22,10 @@ extern void vp_native_assume_fail(void);
 static inline int vp_nd_int(void) { return vp_native_nondet(0); }
 static inline unsigned vp_nd_uint(void) { return (unsigned)vp_native_nondet(1); }
 static inline unsigned char vp_nd_uchar(void) { return (unsigned char)vp_native_nondet(2); }
+/* draws made by harness code (inputs); in translation-validation mode only these come from the vector */
+static inline int vp_ndh_int(void) { return vp_native_nondet(10); }
+static inline unsigned char vp_ndh_uchar(void) { return (unsigned char)vp_native_nondet(12); }
+extern void vp_native_dump(const int* ghost, int ng, unsigned covered);
 #define VP_ASSERT(c, id) do { if (!(c)) vp_native_assert_fail(id, "vp_assert"); } while (0)
 #define VP_DIV1E9(x) ((x) / 1000000000)
 #define VP_CHECK(c, txt) do { if (!(c)) vp_native_assert_fail(-1, txt); } while (0)
@@ -36,6 +40,8 @@ long long vp_nd_last; unsigned vp_nd_acc;   /* vp_nd_acc feeds a (trivially true
 static inline int vp_nd_int(void) { int v = nondet_int(); vp_nd_last = v; vp_nd_acc ^= (unsigned)v; return v; }
 static inline unsigned vp_nd_uint(void) { unsigned v = nondet_uint(); vp_nd_last = v; vp_nd_acc ^= v; return v; }
 static inline unsigned char vp_nd_uchar(void) { unsigned char v = nondet_uchar(); vp_nd_last = v; vp_nd_acc ^= v; return v; }
+#define vp_ndh_int vp_nd_int
+#define vp_ndh_uchar vp_nd_uchar
 #define VP_STR2(x) #x
 #define VP_STR(x) VP_STR2(x)
 #ifdef VP_WITNESS
@@ -50,7 +56,7 @@ static inline unsigned char vp_nd_uchar(void) { unsigned char v = nondet_uchar()
 
 /* context budget: symbolic in verify / cover runs; the plain witness twin runs every thread greedily (until it blocks
    or finishes), which is enough to show that the final assertions are reachable inside the bound */
-#if defined(VP_WITNESS) && !defined(VP_MUST_COVER) && !defined(VP_WITNESS_SYMBOLIC)
+#if (defined(VP_WITNESS) && !defined(VP_MUST_COVER) && !defined(VP_WITNESS_SYMBOLIC)) || defined(VP_GREEDY)
 #define VP_BUDGET(maxb) (maxb)
 #else
 static inline unsigned vp_budget(unsigned maxb) { unsigned b = vp_nd_uchar(); __CPROVER_assume(b <= maxb); return b; }
@@ -97,9 +103,9 @@ static inline void vp_plain_block(void) {
   VP_CHECK(0, "blocking primitive not enabled in sequential/atomic context (self-deadlock)");
   __CPROVER_assume(0);
 }
-static inline uint8_t vp_nondet_bool(void) { return vp_nd_uchar() & 1; }
-static inline int32_t vp_nondet_int(void) { return vp_nd_int(); }
-static inline int32_t vp_nondet_range(int32_t lo, int32_t hi) { int v = vp_nd_int(); __CPROVER_assume(v >= lo && v <= hi); return v; }
+static inline uint8_t vp_nondet_bool(void) { return vp_ndh_uchar() & 1; }
+static inline int32_t vp_nondet_int(void) { return vp_ndh_int(); }
+static inline int32_t vp_nondet_range(int32_t lo, int32_t hi) { int v = vp_ndh_int(); __CPROVER_assume(v >= lo && v <= hi); return v; }
 static inline int32_t vp_tid(void) { return vp_cur; }
 static inline void vp_point(void) {}
 static inline int vp_timeout_fires(void) { return vp_nd_uchar() & 1; }
@@ -138,25 +144,32 @@ void vp_log(int32_t tag, int32_t v);
 static inline void vp_log(int32_t tag, int32_t v) { (void)tag; (void)v; }
 #endif
 
+#ifdef VP_HB
+static inline void vp_hb_lock(char* m);
+static inline void vp_hb_unlock(char* m);
+#else
+#define vp_hb_lock(m) ((void)0)
+#define vp_hb_unlock(m) ((void)0)
+#endif
 /* ------------------------------------------------------------------ mutex (pthread_mutex_t: word 0 = owner+1) */
 static inline int vp_mutex_free(char* m) { return *(int*)m == 0; }
 static inline int32_t vp_mutex_owner_of(char* m) { return *(int*)m; }
 static inline int vp_mutex_lock(char* m) {
   VP_CHECK(*(int*)m != vp_cur + 1, "mutex: relock by owner (self-deadlock)");
-  *(int*)m = vp_cur + 1; return 0;
+  *(int*)m = vp_cur + 1; vp_hb_lock(m); return 0;
 }
 static inline int vp_mutex_trylock(char* m) {
   if (*(int*)m != 0) return 16; /* EBUSY */
-  *(int*)m = vp_cur + 1; return 0;
+  *(int*)m = vp_cur + 1; vp_hb_lock(m); return 0;
 }
 static inline int vp_mutex_unlock(char* m) {
   VP_CHECK(*(int*)m == vp_cur + 1, "mutex: unlock by a thread that does not own it");
-  *(int*)m = 0; return 0;
+  vp_hb_unlock(m); *(int*)m = 0; return 0;
 }
 static inline int vp_mutex_clocklock(char* m, int clk, char* ts) {
   (void)clk; (void)ts;
   if (*(int*)m != 0) return 110; /* ETIMEDOUT: the always-enabled time-out transition fired */
-  *(int*)m = vp_cur + 1; return 0;
+  *(int*)m = vp_cur + 1; vp_hb_lock(m); return 0;
 }
 static inline int vp_mutex_timedlock(char* m, char* ts) { return vp_mutex_clocklock(m, 0, ts); }
 
@@ -166,9 +179,9 @@ static inline int vp_rw_can_write(char* l) { return ((int*)l)[0] == 0 && ((int*)
 static inline int32_t vp_rw_state_of(char* l) { return (((int*)l)[0] << 8) | ((int*)l)[1]; }   /* (writer id + 1) << 8 | reader mask */
 static inline int vp_rw_rdlock(char* l) {
   VP_CHECK((((int*)l)[1] & (1 << vp_cur)) == 0, "rwlock: recursive read lock");
-  ((int*)l)[1] |= (1 << vp_cur); return 0;
+  ((int*)l)[1] |= (1 << vp_cur); vp_hb_lock(l); return 0;
 }
-static inline int vp_rw_wrlock(char* l) { ((int*)l)[0] = vp_cur + 1; return 0; }
+static inline int vp_rw_wrlock(char* l) { ((int*)l)[0] = vp_cur + 1; vp_hb_lock(l); return 0; }
 static inline int vp_rw_tryrdlock(char* l) { if (!vp_rw_can_read(l)) return 16; return vp_rw_rdlock(l); }
 static inline int vp_rw_trywrlock(char* l) { if (!vp_rw_can_write(l)) return 16; return vp_rw_wrlock(l); }
 static inline int vp_rw_clockrdlock(char* l, int clk, char* ts) { (void)clk; (void)ts; if (!vp_rw_can_read(l)) return 110; return vp_rw_rdlock(l); }
@@ -176,6 +189,7 @@ static inline int vp_rw_clockwrlock(char* l, int clk, char* ts) { (void)clk; (vo
 static inline int vp_rw_timedrdlock(char* l, char* ts) { return vp_rw_clockrdlock(l, 0, ts); }
 static inline int vp_rw_timedwrlock(char* l, char* ts) { return vp_rw_clockwrlock(l, 0, ts); }
 static inline int vp_rw_unlock(char* l) {
+  vp_hb_unlock(l);
   if (((int*)l)[0] == vp_cur + 1) ((int*)l)[0] = 0;
   else {
     VP_CHECK((((int*)l)[1] & (1 << vp_cur)) != 0, "rwlock: unlock by a thread that holds neither side");
@@ -201,6 +215,7 @@ static inline void vp_cv_init(char* cv) { ((int*)cv)[0] = 0; ((int*)cv)[1] = 0; 
 static inline void vp_cv_destroy(char* cv) { (void)cv; }
 static inline void vp_cv_wait_begin(char* cv, char* mx) {
   VP_CHECK(*(int*)mx == vp_cur + 1, "condition_variable::wait without owning the mutex");
+  vp_hb_unlock(mx);
   *(int*)mx = 0;
   vp_cvwaits_[vp_cur]++;
   ((int*)cv)[0] |= (1 << vp_cur);
@@ -222,7 +237,7 @@ static inline int vp_cv_can_wake(char* cv, char* mx, int timed) {
 static inline int vp_cv_wait_end(char* cv, char* mx, int timed, char* ts) {
   ((int*)cv)[0] &= ~(1 << vp_cur);
   ((int*)cv)[1] &= ~(1 << vp_cur);
-  *(int*)mx = vp_cur + 1;
+  *(int*)mx = vp_cur + 1; vp_hb_lock(mx);
   if (timed && vp_wake_reason[vp_cur] == 2) {
     int64_t d = vp_deadline(ts);
     if (vp_now < d) vp_now = d;
